@@ -26,17 +26,34 @@
      C05_final_cost_partial   ... and v is the cost of the big-step script of the pair (ScriptModel.script) whenever
                         that yields one
      C05_quiet_irrelevant_partial   hence the two flag settings agree, whatever the two histories
-   Mapping edits (added): ApiModel.v models MultiSetEdit + WeightedBipartiteMatcher (AMSet) and EditCollection /
+   Mapping edits: ApiModel.v models MultiSetEdit + WeightedBipartiteMatcher (AMSet) and EditCollection /
    FixedKeyDictNodeEdit (AColl) call by call - every bounds() read of an edge / pre-matched pair / sub-edit is a step of that
    edit, the `matching` property (forced by edits(), by tighten_bounds() and by MultiSetEdit.tighten_bounds()) runs
    _make_edges_distinct() itself when that has not happened, the lazy _edit_iter / _sub_edits / _cost memo / valid, listings,
    sub-edits addressed through listings, the final nested script.  make_distinct's call counts and the solver's assignment
-   are oracle inputs keyed by (from_nodes, to_nodes) (initA orc), as for C04; the theorems quantify over orc.
-   These two classes are tied to the code by the correspondence run (corr_C05: call-by-call outcomes and final script) only:
-   partial: `covered a` (ApiProofs.covered) excludes documents containing a mapping (MSet / FDict node), because the class
-   invariants of MultiSetEdit / the matcher and of EditCollection / FixedKeyDictNodeEdit under AContract are NOT proved
-   (SI is False on AMSet / AColl); search has no model; the theorem is about the final COST, the final SCRIPT is compared
-   call by call and as a whole by the correspondence run only. *)
+   are oracle inputs keyed by (from_nodes, to_nodes) (initA orc), as for C04; every theorem quantifies over orc.
+     C05_multiset       class lemma: MultiSetEdit with its matcher over pre-matched edits and edges under the contract (any
+                        predicate PC closed under the operations): the invariant MI is closed under every public call, nothing
+                        raises, the measure strictly decreases on a tighten_bounds() that returns True, bounds() contains the
+                        value Vv = (sum over the matching `ch` the oracle answer stands for) + pre-matched values + unmatched
+                        nodes and is idempotent, False only at (Vv, Vv)
+     C05_collection     class lemma: EditCollection / FixedKeyDictNodeEdit over sub-edits under the contract whose initial
+                        upper bounds fit cost_upper_bound: the invariant CI (lazy iterator, _cost memo, valid) likewise;
+                        value = sum of the sub-edits' values; the edit never invalidates itself
+     C05_model          closing induction over ALL documents (scalars, strings, nested lists under all list options, key/value
+                        pairs, DictNode / MultiSetNode, FixedKeyDictNode): for every oracle and every pair in the domain of
+                        initA there is ONE value v such that for every history (calls on the edit and on listed sub-edits, any
+                        order) and both settings of the status flag no call raises, every call is answered and completion
+                        yields v.  Domain of initA (computed conditions, as for C04): the elements of a multiset are pairwise
+                        different (D36 is outside), mixed mapping classes do not occur, and a FixedKeyDictNodeEdit's children's
+                        initial upper bounds fit its cost_upper_bound.
+     C05_quiet_irrelevant   hence the two flag settings agree, whatever the two histories
+     C05_final_cost_partial   v is the cost of the big-step script (ScriptModel.script) - proved for documents without
+                        DictNode / MultiSetNode (`msetfree`: scalars, strings, lists, key/value pairs, FixedKeyDictNodes, i.e. what
+                        the loaders build under the dictionary strategy `none`); for MultiSetEdit the script model keys its matching
+                        oracle by tree paths and the API machine by node lists: no bridge between the two oracles is proved.
+   Not proved: search (IterativeTighteningSearch / PossibleEdits) has no model; the theorems are about the final COST, the
+   final SCRIPT is compared call by call and as a whole by the correspondence run (corr_C05) only. *)
 From Coq Require Import ZArith List Bool.
 Require Import GT.Data GT.EdEngine GT.ScriptSpec GT.ScriptModel GT.MachineSpec GT.MachineModel GT.ApiSpec GT.ApiModel GT.ApiProofs.
 Import ListNotations.
@@ -78,22 +95,37 @@ Theorem C05_invariant : forall q d v (h : history) s, SI q d s v ->
   length (snd (run_hist q d h s)) = length h /\ finish_cost q d (fst (run_hist q d h s)) = Some v.
 Proof. exact si_history. Qed.
 
-Theorem C05_model_partial : forall orc a b s, covered a = true -> initA orc a b = Some s -> exists v, 0 <= v /\
+Theorem C05_multiset : forall q d (PC : ast -> Z -> Prop),
+  (forall x v, PC x v -> astep_ok (AM q d) (fun t => PC t v) v x) ->
+  forall rem ins cnt asg kvs evs, length evs = length rem -> Forall (fun r => length r = length ins) evs ->
+  forall ix m, MI PC rem ins cnt asg kvs evs m ->
+  astep_ok (AM q (S d)) (fun t => exists m', t = AMSet ix m' false /\ MI PC rem ins cnt asg kvs evs m')
+           (Vv rem ins asg kvs evs) (AMSet ix m false).
+Proof. exact mset_step. Qed.
+
+Theorem C05_collection : forall q d (PC : ast -> Z -> Prop),
+  (forall x v, PC x v -> astep_ok (AM q d) (fun t => PC t v) v x) ->
+  forall U vs, Forall (fun x => 0 <= x) vs ->
+  forall ks s, CI PC U vs s ->
+  astep_ok (AM q (S d)) (fun t => exists s', t = toA ks s' /\ CI PC U vs s') (zsum vs) (toA ks s).
+Proof. exact coll_step. Qed.
+
+Theorem C05_model : forall orc a b s, initA orc a b = Some s -> exists v, 0 <= v /\
   forall (quiet : bool) (h : history),
     existsb is_err (snd (run_hist quiet (aheight s) h s)) = false /\
     length (snd (run_hist quiet (aheight s) h s)) = length h /\
     finish_cost quiet (aheight s) (fst (run_hist quiet (aheight s) h s)) = Some v.
-Proof. exact C05_model. Qed.
+Proof. exact ApiProofs.C05_model. Qed.
 
 (* ... and v is the cost of the big-step script (ScriptModel.script, the model of C01/C03) whenever that yields one *)
-Theorem C05_final_cost_partial : forall orc a b s O pa pb e, covered a = true -> initA orc a b = Some s -> script O pa pb a b = OK e ->
+Theorem C05_final_cost_partial : forall orc a b s O pa pb e, msetfree a = true -> initA orc a b = Some s -> script O pa pb a b = OK e ->
   forall (quiet : bool) (h : history),
     existsb is_err (snd (run_hist quiet (aheight s) h s)) = false /\
     length (snd (run_hist quiet (aheight s) h s)) = length h /\
     finish_cost quiet (aheight s) (fst (run_hist quiet (aheight s) h s)) = Some (cost e).
 Proof. exact C05_model_cost. Qed.
 
-Theorem C05_quiet_irrelevant_partial : forall orc a b s, covered a = true -> initA orc a b = Some s -> forall (h1 h2 : history),
+Theorem C05_quiet_irrelevant : forall orc a b s, initA orc a b = Some s -> forall (h1 h2 : history),
   finish_cost true (aheight s) (fst (run_hist true (aheight s) h1 s)) =
   finish_cost false (aheight s) (fst (run_hist false (aheight s) h2 s)).
 Proof. exact C05_quiet. Qed.
@@ -105,6 +137,8 @@ Print Assumptions C05_sum.
 Print Assumptions C05_fixed_len.
 Print Assumptions C05_edit_distance.
 Print Assumptions C05_invariant.
-Print Assumptions C05_model_partial.
+Print Assumptions C05_multiset.
+Print Assumptions C05_collection.
+Print Assumptions C05_model.
 Print Assumptions C05_final_cost_partial.
-Print Assumptions C05_quiet_irrelevant_partial.
+Print Assumptions C05_quiet_irrelevant.
